@@ -921,7 +921,7 @@ class ClickHouseDropQueryBuilder(DropQueryBuilder):
 
     @builder
     def on_cluster(self, cluster: str) -> "ClickHouseDropQueryBuilder":
-        if self._cluster_name:
+        if self._cluster_name is not None:
             raise AttributeError("'DropQuery' object already has attribute cluster_name")
         self._cluster_name = cluster
 
